@@ -264,6 +264,11 @@ class ParticleReleaser(Iterator[pd.DataFrame]):
             df["lat"] = Y
             df.rename(columns={"lon": "X", "lat": "Y"}, inplace=True)
 
+        # Every row must have a position (missing values are read as NaN)
+        if df[["X", "Y"]].isna().any().any():
+            logger.critical("Particle release row without position")
+            raise SystemExit(3)
+
         self._df = df
 
     def discretize(self) -> None:
